@@ -196,7 +196,7 @@ fn url_probe() {
                 dir.path().join("cache"),
                 dir.path().join("tmp"),
                 vec![],
-                Duration::from_secs(3),
+                Duration::from_secs(8),
             )
         };
         if first == "B" {
@@ -357,7 +357,7 @@ fn fs_probe() {
             cache.clone(),
             tmp.clone(),
             vec![symbols.clone()],
-            Duration::from_secs(3),
+            Duration::from_secs(8),
         );
         let kinds = [FileKind::BreakpadSym, FileKind::Binary, FileKind::ExtraDebugInfo];
         let mut returned: Vec<(String, PathBuf)> = vec![];
